@@ -22,6 +22,7 @@ var All = []*ev.Property{
 	C15,
 	C16,
 	C17,
+	C18,
 	C19,
 	C20,
 }
